@@ -41,6 +41,10 @@ OPS = [
     ("cap_len", r"capacity_from_bit_len\(self\.length\)", "self.data.len()"),
     ("unwrap_or0", r"unwrap_or\(0\)", "unwrap_or(1)"),
     ("bits_minus", r"BIT_UNIT - ", "BIT_UNIT + "),
+    # second pass: whole statements and conditions
+    ("stmt_drop", r"^(\s*)(self\.[a-z_0-9]+\([^;]*\);|self\.data\[[^;]*\] (=|\|=|&=|\^=|<<=|>>=) [^;]*;|\*\w+ (=|\|=|&=|\^=) [^;]*;|\w+\.data\[[^;]*\] (=|\|=|&=|\^=) [^;]*;)\s*$", r"\1let _ = 0;"),
+    ("if_negate", r"^(\s*(?:\} else )?)if (?!let )(.*) \{\s*$", r"\1if !(\2) {"),
+    ("while_negate_first", r"^(\s*)while (?!let )(.*) \{\s*$", r"\1while (\2) && false {"),
 ]
 
 
